@@ -124,6 +124,15 @@ def gfDense (op : String) (n : Nat) (pa : PivArg) (A : Mat n Fp) (b : Option (Ve
     match invertDense pa Fp.absval A with
     | .ok x => fpList x
     | .fmatrixError => if sing then "ERR:FMatrix" else "unspecified"
+  | "inv2", none =>
+    -- round four: `A.invert(p); A.invert(p);` on the same object (pivoting on / default argument only)
+    if !(pa.effective Gen.invertDefaultPivoting) then "bad-op" else
+    if closed ∧ sing then "unspecified" else
+    match invertDense pa Fp.absval A with
+    | .ok l => (match invertDense pa Fp.absval (matOfArr n l.toArray) with
+      | .ok l2 => fpList l2
+      | .fmatrixError => "ERR:FMatrix after a successful first inversion")
+    | .fmatrixError => if sing then "ERR:FMatrix" else "unspecified"
   | "fmhinv", none | "fmhinvT", none =>
     if sing then "unspecified" else
     match fmhInvertL (op == "fmhinvT") A with
@@ -139,6 +148,7 @@ def gfDiag (op : String) (n : Nat) (d : Vec n Fp) (b : Option (Vec n Fp)) : Stri
     | _ + 1, d => toString (detDiag d).v
   | "solve", some b => if sing then "unspecified" else fpList (vecToList (solveDiag d b))
   | "invert", none => if sing then "unspecified" else fpList (vecToList (invertDiag d))
+  | "inv2", none => if sing then "unspecified" else fpList (vecToList (invertDiag (invertDiag d)))
   | _, _ => "bad-op"
 
 /-! ### floating point: the model computes in double and reports whether its own residual is small -/
@@ -310,10 +320,17 @@ def FieldTok.parse (w : String) : Option FieldTok :=
 
 def handle (line : String) : String :=
   match tokens line with
-  | ftok :: op :: rep :: ns :: ps :: as :: rest =>
+  | ftok :: op :: rep0 :: ns :: ps :: as :: rest =>
     match FieldTok.parse ftok, ns.toNat?, PivArg.parse ps, parseIntList? as with
     | some ft, some n, some piv, some al =>
       let field := ft.base
+      -- round four: `fmx` / `dmx` / `diagx` = `solve` with x and b of the other vector family (DynamicVector with
+      -- FieldMatrix / DiagonalMatrix, FieldVector with DynamicMatrix); the model has one kind of vector
+      let mixed := rep0 == "fmx" ∨ rep0 == "dmx" ∨ rep0 == "diagx"
+      let rep := if rep0 == "fmx" then "fm" else if rep0 == "dmx" then "dm" else if rep0 == "diagx" then "diag" else rep0
+      if mixed ∧ (op != "solve" ∨ field == "v64" ∨ n > 7) then "bad-op" else
+      -- `inv2` = the same object inverted twice: exact field only, pivoting on / default argument
+      if op == "inv2" ∧ (field != "gf" ∨ ps == "0") then "bad-op" else
       -- n = 0 is not an admissible operand (DynamicMatrix::mat_cols asserts rows() > 0; FieldMatrix<K,0,0> is not used)
       if n < 1 ∨ n > 12 then "bad-op" else
       let bl : Option (Option (List Int)) := match rest with
